@@ -31,6 +31,15 @@ CONFIGS = {
 }
 
 
+# configurations with room for many lines, for fields folded over several continuation lines
+FOLD_CONFIGS = {
+    "64/120/20": {"max_line_size": 64, "max_field_size": 120, "max_headers": 20},
+    "40/64/16": {"max_line_size": 40, "max_field_size": 64, "max_headers": 16},
+}
+MAIN_CONFIGS = list(CONFIGS)
+CONFIGS.update(FOLD_CONFIGS)
+
+
 def _limits(cfg):
     return cfg.get("max_line_size", 8190), cfg.get("max_field_size", 8190), cfg.get("max_headers", 128)
 
@@ -328,6 +337,13 @@ def _job(job):
                 run_stream(part, s, cuts, "request", cfgname, {}, label, expect)
             if len(part.samples) < 2:
                 part.sample({"limit_case": label[0], "limits": label[1:], "expect": expect, "stream": s})
+    elif kind == "folded":
+        _k, cfgname = job
+        mls, mfs, mh = _limits(CONFIGS[cfgname])
+        if mfs <= 1000 and mh >= 6:
+            for label, s, expect in hc.folded_streams(mfs):
+                for cuts in [()] + [(i,) for i in range(1, len(s))]:
+                    run_stream(part, s, cuts, "response", cfgname, {}, (label, mls, mfs), expect)
     elif kind == "unterminated":
         _k, cfgname = job
         mls, mfs, _mh = _limits(CONFIGS[cfgname])
@@ -400,8 +416,9 @@ def run(ctx):
         "a field's size is the length of its whole line, which is what the limit is applied to",
     ]
     nb = len(hc.baselines())
-    cfgs = ["default", "32/64/4", "64/32/4"] if ctx.quick else list(CONFIGS)
+    cfgs = ["default", "32/64/4", "64/32/4"] if ctx.quick else list(MAIN_CONFIGS)
     jobs = [("work",), ("targets",)]
+    jobs += [("folded", c) for c in FOLD_CONFIGS]
     for c in cfgs:
         jobs += [("corpus", i, c) for i in range(nb)]
         jobs += [("limits", c), ("unterminated", c)]
@@ -438,6 +455,9 @@ def replay(case):
                 for ul, us, _s in hc.unterminated_streams(mls, mfs):
                     if us == case["stream"]:
                         expect, lab = "reject", (ul, mls, mfs)
+                for fl, fs, fe in hc.folded_streams(mfs):
+                    if fs == case["stream"]:
+                        expect, lab = fe, (fl, mls, mfs)
         else:
             lab = case.get("label")
         run_stream(part, case["stream"], tuple(case["cuts"]), k, case["config"], case.get("pkw") or {}, lab, expect)
